@@ -27,7 +27,7 @@ RULE = (
     "maps, estimator maps, transform kinds, step kind, request-kind sequence, fault plan)."
 )
 ASSUMPTIONS = [
-    "the reported weight row of a filtered function must equal the reference weights of the filter mapped to it (when the ranking is free of ties); the value is then recomputed from that row",
+    "the reported weight row of a filtered function must equal the reference weights of the filter mapped to it (when the ranking is free of near ties - exact ties are ranked by realization index); the value is then recomputed from that row",
     "value comparison rtol 1e-9 / atol 1e-12; twin-run comparison rtol 1e-12",
     "SimEvaluator and the scripted optimizer are stubs playing the user and the algorithm; all of ropt is real",
 ]
